@@ -15,7 +15,8 @@ EXPLANATION = ("Cancellation containment: the five walkers of the scope ancestor
                "cancelled and no outer cancellation is visible and the exception is an AnyIO cancellation, the cancel-message prefix written by "
                "cancel()/check_cancelled() is the one is_anyio_cancellation() matches, visibility is the conjunction of its three conjuncts, "
                "the cancelled flags are monotone."
-               " A scope that splits its own cancellation out of an exception group sets cancelled_caught on the re-raising path as well.")
+               " A scope that splits its own cancellation out of an exception group sets cancelled_caught on the re-raising path as well."
+               " In TaskGroup.__aexit__ a native cancellation caught after the group's own replaces the stored one (both directions of the replacement rule).")
 NOT_DECIDED = "Comparison with a reference semantics over observed histories (a run-time oracle); shields toggled concurrently with delivery."
 
 
